@@ -6,10 +6,51 @@ let msg_text m =
   Printf.sprintf " | %s %s %s %s %s %s" (string_of_z m.pri) (string_of_z m.pgn) (string_of_z m.dst) (string_of_z m.src) (string_of_z m.tim) (hex m.data)
 let rec repeat x n = if n <= 0 then [] else x :: repeat x (n-1)
 let b2s b = if b then "1" else "0"
+(* FWD: the forwarding path.  The model gets, per op, the flags own/known/system (computed by the case generator), whether the op is a
+   reception (R) or an own send (S), and the complete message; it answers with the bytes written to the forward stream and what one
+   reader attached to that stream for the whole case reports.  The CAN frames / SendMsg arguments behind <at> are for the C++ only. *)
+exception Model_oob
+let fwd_line line =
+  match String.index_opt line '|' with
+  | None -> "badcase"
+  | Some bar ->
+    let cfg = List.filter_map (fun t -> match String.index_opt t '=' with
+        | Some i -> Some (String.sub t 0 i, String.sub t (i+1) (String.length t - i - 1)) | None -> None)
+        (split (String.sub line 3 (bar - 3))) in
+    let get k = try List.assoc k cfg with Not_found -> "" in
+    let mode = (try int_of_string (get "mode") with _ -> -1) in
+    let t0ok = (try z_of_string (get "t0") with _ -> Z0) in
+    let big = (match Z.sub t0ok (z_of_int 1000) with Zneg _ -> false | _ -> true) in
+    if mode < 0 || mode > 4 || not big then "badcase" else
+    let c = { fw_enable = (get "en" = "1"); fw_system = (get "sys" = "1"); fw_known = (get "ok" = "1"); fw_own = (get "own" = "1");
+              fw_mode = z_of_int mode } in
+    let ops = String.split_on_char ';' (String.sub line (bar + 1) (String.length line - bar - 1)) in
+    let st = ref (init (repeat Z0 300) (z_of_int 65)) in
+    let texts = ref [] in
+    (try
+      List.iter (fun opstr ->
+        match split opstr with
+        | [] -> ()
+        | k :: fl :: p :: g :: d :: s :: t :: h :: rest
+          when String.length fl >= 3 && ((k = "R" && List.length rest >= 2) || (k = "S" && List.length rest >= 4)) ->
+          let m = msg_of [p; g; d; s; t; h] in
+          let b i = fl.[i] = '1' in
+          (match forwarded_bytes c (b 0) (b 1) (b 2) (k = "R") m with
+           | Ok out ->
+             (match run Z0 !st out with
+              | Ok (st', ms) ->
+                st := st';
+                texts := Printf.sprintf "%s %d%s" (hex out) (List.length ms) (String.concat "" (List.map msg_text ms)) :: !texts
+              | _ -> raise Model_oob)
+           | _ -> raise Model_oob)
+        | _ -> texts := "badop" :: !texts) ops;
+      if !texts = [] then "fwd" else "fwd " ^ String.concat " ; " (List.rev !texts)
+    with Model_oob -> "oob")
 let () =
   try while true do
     let line = input_line stdin in
     (match split line with
+     | "FWD" :: _ -> print_string (fwd_line line)
      | "ENC" :: rest when List.length rest >= 6 ->
        (match encode (msg_of rest) with
         | OOB -> print_string "oob" | Fuel -> print_string "fuel"
